@@ -33,6 +33,22 @@ def lowest_of(ctx: Context, fi, expr: ast.AST):
             if idx == 0:
                 return 'min', base
             return f"element [{norm_text(e.slice)}] of a sorted array is not the lowest", None
+        # `if len(hits) > 1: hits = numpy.sort(hits)` before `hits[0]`: a collection of at most one element is sorted as it stands
+        if isinstance(base, ast.Name) and idx == 0:
+            defs = flow.defs_of(base)
+            cond = [d for d in defs if d.kind == 'assign' and d.value is not None and sorted_ascending(ctx, fi, d.value) is not None]
+            plain = [d for d in defs if d not in cond]
+            if len(cond) == 1 and len(plain) == 1:
+                from .common import enclosing_ifs
+                src = sorted_ascending(ctx, fi, cond[0].value)
+                st = getattr(cond[0], 'stmt', None) or getattr(cond[0], 'node', None)
+                ifs = enclosing_ifs(fi, st) if st is not None else []
+                if ifs and isinstance(src, ast.Name) and src.id == base.id:
+                    test, in_body = ifs[-1][0].test, ifs[-1][1]
+                    t = norm_text(test)
+                    many = {f"len({base.id}) > 1", f"len({base.id}) >= 2", f"{base.id}.size > 1", f"{base.id}.size >= 2", f"1 < len({base.id})"}
+                    if in_body and t in many and not ifs[-1][0].orelse and len(ifs) == 1:
+                        return 'min', plain[0].value if getattr(plain[0], 'value', None) is not None else base
         return "subscript of a collection that is not sorted ascending", None
     if isinstance(e, ast.Call):
         if (builtin_call(e, ['min']) or np_call(ctx, fi, e, ['min', 'amin'])) and len(e.args) == 1 and not e.keywords:
@@ -220,6 +236,9 @@ from ..variants import V  # noqa: E402
 _B = 'src/emsarray/conventions/_base.py'
 _Q = "hits = numpy.sort(self.strtree.query(point, predicate='intersects'))"
 VARIANTS = [
+    V('C04', 'benign-sort-only-several-hits', 'src/emsarray/conventions/_base.py', "        hits = numpy.sort(self.strtree.query(point, predicate='intersects'))\n", "        hits = self.strtree.query(point, predicate='intersects')\n        if len(hits) > 1:\n            hits = numpy.sort(hits)\n", None),
+    V('C04', 'sort-only-from-three-hits', 'src/emsarray/conventions/_base.py', "        hits = numpy.sort(self.strtree.query(point, predicate='intersects'))\n", "        hits = self.strtree.query(point, predicate='intersects')\n        if len(hits) > 2:\n            hits = numpy.sort(hits)\n", 'R04.2'),
+    V('C04', 'sort-in-else-branch', 'src/emsarray/conventions/_base.py', "        hits = numpy.sort(self.strtree.query(point, predicate='intersects'))\n", "        hits = self.strtree.query(point, predicate='intersects')\n        if len(hits) > 1:\n            pass\n        else:\n            hits = numpy.sort(hits)\n", 'R04.2'),
     V('C04', 'predicate-contains', _B, _Q, "hits = numpy.sort(self.strtree.query(point, predicate='contains'))", 'R04.1'),
     V('C04', 'predicate-within', _B, _Q, "hits = numpy.sort(self.strtree.query(point, predicate='within'))", 'R04.1'),
     V('C04', 'no-predicate', _B, _Q, "hits = numpy.sort(self.strtree.query(point))", 'R04.1'),
